@@ -142,6 +142,10 @@ def build(prop, tier="quick"):
     ctor = " ".join(chai2c.strip_comments(en.text).split())
     ok = "m_use_paths(ensure_minimum_path_vec(std::move(t_use_paths)))" in ctor
     kb.static_facts.append(("the constructor initialises m_use_paths with ensure_minimum_path_vec(t_use_paths) and nothing else", ok, EN))
+    if tier == "thorough":
+        import engine_probe
+        rc, cases, err = engine_probe.run("c19")
+        kb.static_facts.append(("native battery (thorough tier): probe_engine.cpp c19 scenarios on the real engine", rc == 0 and not cases, (err.strip() + " " + str(cases[:3]))[:400]))
     kb.assumptions += [
         "A6: file names are interned ids; APP(i) (use path i + name), EXISTS, USED0 are uninterpreted functions; files do not appear or vanish during one call",
         "verif_eval_file: assumed contract for eval_file (load_file + evaluation): a missing file raises file_not_found_error naming exactly that file; "
